@@ -133,6 +133,13 @@ Definition incubation_factor (tau t : R) : R := Rmin (exp (- tau / t)) 1.
 
 Definition nucleationRate (Z beta G T tau t : R) : R :=
   if Req_EM_T G 0 then 0 else Z * beta * exp (- G / (kB * T)) * incubation_factor tau t.
+(* time = 0 (the first evaluation of a run, KWNBase passes time = t): binary64 gives -tau/0 = -inf for tau > 0,
+   exp(-inf) = 0, so the incubation factor is 0; entries without barrier (Gcrit = 0) are masked and stay 0.
+   (tau = 0 with Gcrit <> 0 would be 0/0; the chain nucleationBarrier -> zeldovich -> incubationTime never produces it
+   for a positive volume factor, and the statements about this definition are guarded by 0 < tau.) *)
+Definition incubation_factor_ext (tau t : R) : R := if Req_EM_T t 0 then 0 else incubation_factor tau t.
+Definition nucleationRate_ext (Z beta G T tau t : R) : R :=
+  if Req_EM_T G 0 then 0 else Z * beta * exp (- G / (kB * T)) * incubation_factor_ext tau t.
 (* time = np.inf (steady state): -tau/inf = -0, the factor is min(exp 0, 1) = 1 *)
 Definition nucleationRate_ss (Z beta G T : R) : R :=
   if Req_EM_T G 0 then 0 else Z * beta * exp (- G / (kB * T)) * 1.
